@@ -245,6 +245,7 @@ type SliceV struct {
 	Nil      bool
 	MaybeNil bool
 	Obj int // array object id
+	Path []PathElem // field path from the object to the array (slices of arrays nested in structs); usually empty
 	Off *IntV
 	Len *IntV
 	Cap *IntV
